@@ -9,6 +9,12 @@
 //   regime    : --family tiny    |p| 16..20 bit, w in 1..4, k in 1..4 (thorough: k = 5 too)
 //               --family wide    |p| 16..32 bit, w in {7,10} (all 2^w types), k in {1,2,3} (quick: k = 3 only with w = 7)
 //               --family adm     |p| 160..320 bit (|q| >= 128 or safe prime), w in {1,3}, k in {2,3}
+//               --family member  membership change: k0 in {3} (thorough {3,4}) players generate keys, then every choice of
+//                                leaving player (RemoveKey + Finalize at the remaining players) and the variant where it
+//                                re-joins as a fresh instance with a fresh key (UpdateKey + Finalize again); the four toy
+//                                and the four small-admissible groups; w in {1,2}, all types, chains <= 2 among the
+//                                active players, every opener, every subset of contributions (keys c01/dlog/after-leave/...,
+//                                c01/dlog/after-rejoin/...); key sets with two equal public keys (toy groups) are re-drawn
 //               --family default thorough only: 2048/256 canonical Schnorr group, 1024 bit QR group, k=2, w in {2,4} / 10
 //   players k, type bits w, every type 0..2^w-1
 //   creation  : CreateOpenCard (by the first masking player) followed by a chain of MaskCard steps, chain in k^len,
@@ -98,7 +104,7 @@ static void plans(size_t k, size_t L, std::vector<Plan> &out)
 struct Cell {
 	DlogGame G;
 	size_t k, w, ntypes;
-	std::string cid;
+	std::string cid, keyp;
 	std::vector<SchindelhauerTMCG *> tm;
 	uint64_t sentinel, coincidence;
 	void fresh_tmcg()
@@ -145,7 +151,7 @@ struct Cell {
 		}
 		catch (std::exception &e)
 		{
-			viol("c01/vtmf/exception/create", ctx + " threw " + e.what(), cid);
+			viol(keyp + "/exception/create", ctx + " threw " + e.what(), cid);
 			mcenv::cur = nullptr;
 			return false;
 		}
@@ -169,7 +175,7 @@ struct Cell {
 		}
 		catch (std::exception &e)
 		{
-			viol("c01/vtmf/exception/prove", ctx + " threw " + e.what(), cid);
+			viol(keyp + "/exception/prove", ctx + " threw " + e.what(), cid);
 			mcenv::cur = nullptr;
 			return;
 		}
@@ -193,7 +199,7 @@ struct Cell {
 						if (!tm[o]->TMCG_VerifyCardSecret(c, G.v[o], in, out))
 						{
 							shares_ok = false;
-							viol("c01/vtmf/honest_share_rejected", ctx + " opener=" + str(o) + " share of player " + str(j) +
+							viol(keyp + "/honest_share_rejected", ctx + " opener=" + str(o) + " share of player " + str(j) +
 								" (honest TMCG_ProveCardSecret output) rejected by TMCG_VerifyCardSecret", cid);
 						}
 					}
@@ -202,7 +208,7 @@ struct Cell {
 				}
 				catch (std::exception &e)
 				{
-					viol("c01/vtmf/exception/open", ctx + " opener=" + str(o) + " threw " + e.what(), cid);
+					viol(keyp + "/exception/open", ctx + " opener=" + str(o) + " threw " + e.what(), cid);
 					shares_ok = false;
 				}
 				mcenv::cur = nullptr;
@@ -218,7 +224,7 @@ struct Cell {
 				{
 					R->counters["full_openings"]++;
 					if (got != T)
-						viol("c01/vtmf/full_opening_wrong_type", ctx + " opener=" + str(o) + " TMCG_TypeOfCard=" + str(got) +
+						viol(keyp + "/full_opening_wrong_type", ctx + " opener=" + str(o) + " TMCG_TypeOfCard=" + str(got) +
 							" created with type " + str(T) + " (reference decryption gives " + str(G.ref_type(c, S, ntypes)) + ")", cid);
 				}
 				else
@@ -231,7 +237,7 @@ struct Cell {
 					else
 						coincidence++;
 					if (got != want)
-						viol(want == ntypes ? "c01/vtmf/missing_share_not_sentinel" : "c01/vtmf/missing_share_wrong_type",
+						viol(want == ntypes ? keyp + "/missing_share_not_sentinel" : keyp + "/missing_share_wrong_type",
 							ctx + " opener=" + str(o) + " contributions=" + str(S) + "(bitmask) TMCG_TypeOfCard=" + str(got) +
 							" exact expectation " + str(want) + " (sentinel=" + str(ntypes) + ", created type " + str(T) + ")", cid);
 				}
@@ -239,19 +245,43 @@ struct Cell {
 		}
 	}
 
-	void run(const GroupCfg &cfg, size_t k_, size_t w_, int order, size_t L, uint64_t seed)
+	// leaver >= 0: membership change after key generation (k_ players generate keys, player `leaver` leaves, with
+	// rejoin it comes back with a fresh key); the cards are then created / masked / opened by the active players only.
+	void run(const GroupCfg &cfg, size_t k_, size_t w_, int order, size_t L, uint64_t seed, int leaver = -1, bool rejoin = false)
 	{
 		k = k_, w = w_, ntypes = (size_t)1 << w, sentinel = coincidence = 0;
-		if (!G.setup(cfg, k, seed ^ hash_str(cid), ntypes))
+		keyp = leaver < 0 ? "c01/vtmf" : (rejoin ? "c01/dlog/after-rejoin" : "c01/dlog/after-leave");
+		bool ready = false;
+		for (unsigned attempt = 0; attempt < 64 && !ready; attempt++)
 		{
-			if (G.harness_err)
+			if (!G.setup(cfg, k, (seed ^ hash_str(cid)) + 0x9e3779b97f4a7c15ULL * attempt, ntypes))
 			{
-				printf("{\"t\":\"error\",\"what\":\"%s: %s\"}\n", jesc(cid).c_str(), jesc(G.err).c_str());
+				if (G.harness_err)
+				{
+					printf("{\"t\":\"error\",\"what\":\"%s: %s\"}\n", jesc(cid).c_str(), jesc(G.err).c_str());
+					return;
+				}
+				R->ok(false);
+				viol("c01/vtmf/setup", G.err, cid);
 				return;
 			}
-			R->ok(false);
-			viol("c01/vtmf/setup", G.err, cid);
+			// membership cells need pairwise distinct public keys (toy groups: equal secret exponents happen), see c01_game.hh
+			ready = leaver < 0 || G.keys_distinct();
+		}
+		if (!ready)
+		{
+			printf("{\"t\":\"error\",\"what\":\"%s: no key set with distinct public keys in 64 attempts\"}\n", jesc(cid).c_str());
 			return;
+		}
+		if (leaver >= 0)
+		{
+			if (!G.change_membership((size_t)leaver, rejoin))
+			{
+				R->ok(false);
+				viol(keyp + "/membership_step_refused", G.err, cid);
+				return;
+			}
+			k = G.k;
 		}
 		std::vector<Plan> pls;
 		plans(k, L, pls);
@@ -365,6 +395,31 @@ int main(int argc, char **argv)
 		ks = {2};
 		ws = {2, 4, 10};
 	}
+	else if (family == "member")
+	{
+		// membership change: k0 players generate keys, then one leaves (or leaves and re-joins with a fresh key)
+		for (int regime = 0; regime < 2; regime++)
+			for (size_t ci = 0; ci < 4; ci++)
+				for (size_t k0 = 3; k0 <= (thorough ? 4u : 3u); k0++)
+					for (size_t leaver = 0; leaver < k0; leaver++)
+						for (int rejoin = 0; rejoin <= 1; rejoin++)
+							for (size_t w = 1; w <= 2; w++)
+							{
+								const GroupCfg &cfg = regime ? ADM[ci] : TINY[ci];
+								std::string cid = std::string("vtmf:member:") + cfg.name + ":k" + str(k0) + ":leaver" + str(leaver) + (rejoin ? ":rejoin" : ":leave") + ":w" + str(w);
+								if (!R->mine() || !R->selected(cid))
+									continue;
+								if (R->out_of_time())
+									goto done;
+								printf("{\"t\":\"at\",\"case\":\"%s\"}\n", cid.c_str());
+								fflush(stdout);
+								Cell cell;
+								cell.cid = cid;
+								cell.run(cfg, k0, w, 0, 2, seed, (int)leaver, rejoin);
+								R->counters[rejoin ? "membership_cells_rejoin" : "membership_cells_leave"]++;
+							}
+		goto done;
+	}
 	else
 	{
 		fprintf(stderr, "unknown family %s\n", family.c_str());
@@ -399,7 +454,7 @@ int main(int argc, char **argv)
 done:
 	mcenv::cur = nullptr;
 	rep.bound = family + ": " + (family == "tiny" ? std::string("k<=") + (thorough ? "5" : "4") + ", w<=4, chains<=" + (thorough ? "3 (2 for k=5)" : "2") :
-		family == "wide" ? (thorough ? "k<=3, w in {7,10}, chains<=1" : "k<=3 (k=3 only w=7), w in {7,10}, chains<=1") : family == "adm" ? "k in {2,3}, w in {1,3}, chains<=2" : "k=2, w in {2,4,10}, chains<=1");
+		family == "wide" ? (thorough ? "k<=3, w in {7,10}, chains<=1" : "k<=3 (k=3 only w=7), w in {7,10}, chains<=1") : family == "adm" ? "k in {2,3}, w in {1,3}, chains<=2" : family == "member" ? std::string("k0 in {3") + (thorough ? ",4" : "") + "}, every leaving player, leave / leave+rejoin, w<=2, chains<=2, toy + small-admissible groups" : "k=2, w in {2,4,10}, chains<=1");
 	rep.finish();
 	return 0;
 }
